@@ -209,6 +209,13 @@ def inplace_walk_case(args):
             out["problems"].append({"prop": "C09", "step": step, "rule": rn, "idx": idx, "what": "not equivalent to the start",
                                     "witness": w, "state": core.tuple_str(after)})
         current = new_root
+        st = core.eval_stale(current)
+        if st is not None:
+            for pr_ in ("C02" if eq else "C01", "C09", "C05"):
+                out["problems"].append({"prop": pr_, "step": step, "rule": rn, "idx": idx,
+                                        "what": "evaluate() on the rewritten objects differs from evaluate() on a "
+                                                "fresh tree of the same structure", "witness": st,
+                                        "state": core.tuple_str(before), "result": core.tuple_str(after)})
         # clone_from_root of nodes of a tree that has been rewritten in place
         objs = core.inorder(current)
         sig = expr_signature(current)
@@ -370,6 +377,12 @@ def walk_case(args):
         if bad is not None:
             out["problems"].append({"step": step, "rule": rn, "idx": idx, "what": "not equivalent to the start", "witness": bad,
                                     "state": core.tuple_str(after)})
+        if not probs:
+            st = core.eval_stale(new_root)
+            if st is not None:
+                out["problems"].append({"step": step, "rule": rn, "idx": idx, "witness": st, "state": core.tuple_str(after),
+                                        "what": "evaluate() on the result objects differs from evaluate() on a fresh "
+                                                "tree of the same structure"})
         try:
             text = str(new_root)
             rp = pr.impl_parse(text)
